@@ -23,6 +23,16 @@ Part E3 (explicit-state BFS over setter histories after a solve)
     full_W_H[k] = (W_H[k] H_kk full_F[k])^-1 W_H[k] for the *observed* inputs (i.e. the identity
     relation), full_W = full_W_H^H, Ns from the precoder shapes; plus a fresh-solver differential.
 
+Channel-side events (the solver is bound to ONE channel object that changes under it):
+    init_from_channel_matrix(other member), randomize (seeded), set_pathloss(matrix / None), noise_var=...
+    Between a channel change and the next solver-side call full_W_H / full_W are not judged (the solver is
+    not told); after every solve all E1 relations are evaluated for the CURRENT effective channel (read
+    block by block from an independent channel object brought to the same channel state) and the solution
+    must equal that of a fresh solver bound to such a channel.
+Aliasing: every array / list handed to a setter, the power vector and the channel's matrices must be
+    bit-identical after the call; the caller then re-uses its buffers (list slots rebound, in-place scaling
+    of the full_F matrices and of the P vector): the solver must not change.
+
 Randomness is owned: solver._rs (and the embedded alt-min solver's) is re-seeded before every solve /
 randomizeF, or the deterministic initialisations svd / closed_form are used.
 """
@@ -46,7 +56,8 @@ RULE = ("E1: every (solver, K, Nr, Nt, Ns, initialize_with, power, generic chann
         "alphabet from each base solve; states merged only when the digest of the entire real object "
         "(all attributes, caches, sub-solvers; taken before the invariants read any view) coincides; "
         "every transition is executed on the implementation and all 8 public views are compared with the "
-        "reference model")
+        "reference model; the alphabet includes channel-side events (new realisation, path loss, noise) "
+        "of the bound channel object and caller-side re-use of the buffers passed to the setters")
 
 EPS = 2.0 ** -52
 UNIT_TOL = 1e-12            # | ||F_k||_F - 1 |
@@ -313,7 +324,7 @@ def e1_cases(tier):
                 if init == "closed_form" and not (K == 3 and Nr == Nt and len(set(Nr)) == 1
                                                   and isinstance(Ns, int)):
                     continue
-                powers = list(PDECADES) + [list(PMIX[:K])] + \
+                powers = [x for x in PDECADES if thorough or x != 1e-3] + [list(PMIX[:K])] + \
                     ([None, list(PVEC[:K]), list(PMIX2[:K])] if thorough else [])
                 for P in powers:
                     for noise in noises:
@@ -1115,8 +1126,9 @@ class E3Job:
                     break
                 recent.add(e)
             evs = [e for e in job.events if e not in recent]
-            if chk.tier != "thorough" and any(e[0] == "chan" for e in hist):
-                evs = [e for e in evs if e[0] != "chan"]     # quick: one channel event per history
+            # channel events per history: at most one (quick) / two (thorough)
+            if sum(1 for e in hist if e[0] == "chan") >= (2 if chk.tier == "thorough" else 1):
+                evs = [e for e in evs if e[0] != "chan"]
             return evs
 
         def invariant(hist, st):
@@ -1162,6 +1174,10 @@ def main(chk: Check):
     chk.assume("monotone leakage is required for equal powers and noise-free channels only (as stated)")
     chk.assume("E3: a full_F that an MMSE solve produced (norm below sqrt(P)) may be kept after a power change "
                "as long as it respects the new power; otherwise full_F = F sqrt(P) is required exactly")
+    chk.assume("E3: between a channel-side change and the next solver-side call (solve or a setter) the "
+               "cached full_W_H / full_W are not judged: the solver is not told about channel changes")
+    chk.assume("E3 pruning: a getter read twice with no mutator in between is the same state; at most one "
+               "(quick) / two (thorough) channel events per history")
     chk.assume("max_iterations = 0 is outside the enumerated alphabet (only used to observe the initial cost)")
     chk.extra.update(dict(UNIT_TOL=UNIT_TOL, POWER_RTOL=POWER_RTOL, MMSE_POWER_RTOL=MMSE_POWER_RTOL,
                           IDENT_C=IDENT_C, KAPPA_MAX=KAPPA_MAX, COST_RTOL=COST_RTOL, COST_ATOL=COST_ATOL,
@@ -1188,6 +1204,7 @@ def main(chk: Check):
     chk.sample(jobs[0][1])
     chk.sample(jobs[-1][1])
     chk.require_outcomes("cache_population", 8)
+    chk.require_outcomes("channel_state", 8)
     chk.require_outcomes("configuration", 40)
     chk.require_outcomes("iterations_run", 6)
     chk.require_outcomes("cost_strictly_decreased", 4)
